@@ -67,17 +67,16 @@ QUICK = [
     ("S1", V20D, 3, "HOLES"),
     ("S2r", V20, 2, "COPY"),
     ("S4", V21, 2, "TABLES"),
+    ("S5", V20, 2, "TABLES"),
+    ("S6", V20, 2, "READD"),
 ]
 THOROUGH = [
     ("S0", V20, 5, "BUILD"),
     ("S0", V21D, 5, "BUILD"),
     ("S2", V20, 3, "FULL"),
-    ("S2", V21, 3, "FULL"),
-    ("S2r", V21D, 3, "FULL"),
-    ("S3", V20, 3, "EDIT"),
-    ("S3r", V21, 3, "EDIT"),
-    ("S3", V21, 4, "READD"),
-    ("S3r", V20D, 4, "READD"),
+    ("S3", V21, 3, "EDIT"),
+    ("S3", V21, 3, "READD"),
+    ("S3r", V20D, 3, "READD"),
     ("S1", V20, 4, "HOLES"),
     ("S1r", V21D, 4, "HOLES"),
     ("S2", V20, 3, "COPY"),
@@ -95,18 +94,43 @@ def replay(history):
     return X.execute(history, ALPHAS[history["alpha"]])["viol"]
 
 
+def _merge_crosscheck(seed_h, depth):
+    """The argument for merging histories by canonical key, checked: ALL histories up to
+    `depth` are executed without merging; histories with equal keys must have equal verdicts,
+    equal enabled operations and equal multisets of successor keys."""
+    level = [dict(seed_h)]
+    by_key = {}
+    n = 0
+    results = {}
+    for d in range(depth + 1):
+        res = core.pmap(run_one, level)
+        n += len(level)
+        nxt = []
+        for h, r in zip(level, res):
+            results[core.jdump(h["ops"])] = r
+            if d < depth:
+                for op in r["succ"]:
+                    nxt.append(dict(h, ops=h["ops"] + [op]))
+        level = nxt
+    for ops_s, r in results.items():
+        ops = __import__("json").loads(ops_s)
+        kids = sorted(results[core.jdump(ops + [op])]["key"] for op in r["succ"] if core.jdump(ops + [op]) in results)
+        sig = core.jdump([sorted(f"{c}|{w}" for c, w, _ in r["viol"]), r["succ"], kids if len(ops) < depth else None])
+        by_key.setdefault(r["key"], {}).setdefault(sig, ops)
+    bad = {k: v for k, v in by_key.items() if len(v) > 1}
+    if bad:
+        k, v = next(iter(bad.items()))
+        raise core.HarnessError(f"canonical key merges histories that behave differently: {list(v.values())[:2]}")
+    return {"histories": n, "distinct_keys": len(by_key)}
+
+
 def run(ctx):
     budget = {"reopen": 1, "copy": 1} if ctx.quick else {"reopen": 2, "copy": 1}
     total = {"states": 0, "transitions": 0, "model_states": 0}
     runs = []
     seeds = []
-    refusals = {}
     for scene, cfg, depth, alpha in QUICK if ctx.quick else THOROUGH:
         seed_h = {"property": "C04", "cfg": cfg, "scene": scene, "alpha": alpha, "ops": []}
-
-        def wrapped(history):
-            return run_one(history)
-
         st = explorer.explore(ctx, run_one, [seed_h], depth, cost=X.deviations, budget=budget)
         runs.append({"scene": scene, "cfg": cfg, "depth": depth, "alphabet": alpha,
                      **{k: st[k] for k in ("states", "transitions", "model_states", "levels")}})
@@ -119,6 +143,18 @@ def run(ctx):
         a, b = run_one(h), X.execute(h, ALPHAS[h["alpha"]])
         if core.jdump(a) != core.jdump(b):
             raise core.HarnessError(f"forked and plain execution disagree on {h}")
+    cross = _merge_crosscheck({"property": "C04", "cfg": V20, "scene": "S1", "alpha": "BUILD", "ops": []}, 2 if ctx.quick else 3)
+    total["transitions"] += cross["histories"]
+    import json as _json
+
+    refused, accepted = {}, {}
+    for o in ctx.outcomes:
+        try:
+            kind, res = _json.loads(o)[:2]
+        except (TypeError, ValueError):
+            continue
+        tgt = accepted if res == "ok" else refused
+        tgt[f"{kind}:{res}"] = tgt.get(f"{kind}:{res}", 0) + 1
     ctx.cover(
         states=total["states"],
         transitions=total["transitions"],
@@ -131,6 +167,8 @@ def run(ctx):
         runs=runs,
         determinism_replays=ndet,
         fork_vs_plain_crosscheck=2,
+        nomerge_crosscheck=cross,
+        distinct_outcomes_by_last_operation={"accepted": accepted, "refused": refused},
         exhaustive=True,
         bound="all histories over the listed alphabet up to runs[].depth operations after the scene; <=3 holes, <=3 data names, <=3 property "
               "groups per hole, array lengths 0..3, format versions 2.0 and 2.1, <=1 group copy and <=1 (quick) / 2 (thorough) re-open per history",
@@ -138,6 +176,10 @@ def run(ctx):
     ctx.assumptions += [
         "bounded: scenes, depths, alphabets and deviation budget as listed in coverage.runs; nothing is claimed beyond",
         "float data only (every value a float32-exact tag); other primitive types are C08's subject",
-        "an operation the library refuses (raises) leaves the model unchanged; such histories are observed but not extended",
-        "order of holes inside a table and order of rows inside an index are not compared (statement silent); blocks must be contiguous",
+        "an operation the library refuses (raises) leaves the model unchanged; such a history is observed (witness prefix after-refused-) but not extended",
+        "order of holes inside a table and order of rows inside an index are not compared (statement silent); the rows of one hole must be contiguous",
+        "a state whose live objects no longer show the model (known findings D2, D3) is continued only through a re-open; nothing is explored after "
+        "rename_data (known finding D1) nor after a group copy that was already wrong when made",
+        "after a group copy, operations go on on the source only; the copy must keep equal to the state it was copied from",
+        "table-view is judged only where the per-hole reading of the same observer holds; file-content only where the file structure holds",
     ]
